@@ -29,7 +29,7 @@ FlushI(o) == Idx(o.steps, LAMBDA e : e.s \in {"send", "sendhdr"})
 HasCx(o) == CxI(o) > 0
 PreCx(o) == HasCx(o) /\ CxI(o) < OpenI(o)
 RetAfterCx(o) == HasCx(o) /\ RetI(o) > CxI(o)
-SawCx(o) == RetAfterCx(o) /\ \E i \in CxI(o)..RetI(o) : o.steps[i].s = "wait"
+SawCx(o) == RetAfterCx(o) /\ o.steps[CxI(o)].c = "cancel" /\ \E i \in CxI(o)..RetI(o) : o.steps[i].s = "wait"
 HdrSetUnsent(o) == /\ RetI(o) > 0 /\ (FlushI(o) = 0 \/ FlushI(o) > RetI(o))
                    /\ \E i \in 1..RetI(o) : o.steps[i].s = "sethdr"
 RespThenErr(o) == Single(o.shape) /\ SendI(o) > 0 /\ RetI(o) > 0 /\ o.steps[RetI(o)].code # "OK"
@@ -41,7 +41,8 @@ TermTag(o) == IF PreCx(o) THEN "context-ended-before-call"
               ELSE IF HasCx(o) THEN "context-end"
               ELSE IF RespThenErr(o) THEN "response-then-error"
               ELSE "plain"
-HdrTag(o) == IF HasCx(o) THEN "context-end" ELSE IF HdrSetUnsent(o) THEN "set-but-no-message-sent" ELSE "plain"
+HdrTag(o) == IF HdrSetUnsent(o) /\ (~HasCx(o) \/ RetI(o) < CxI(o)) THEN "set-but-no-message-sent"
+             ELSE IF HasCx(o) THEN "context-end" ELSE "plain"
 TrlTag(o) == IF TrlAfterResp(o) THEN "set-after-response" ELSE IF RespThenErr(o) THEN "response-then-error"
              ELSE IF HasCx(o) THEN "context-end" ELSE "plain"
 
@@ -66,7 +67,8 @@ CallFails(o, t0) ==
                    \cup If(\E e \in A : SeqMatch(e.trls, t.trls), "trailer:" \o TrlTag(o))
                    \cup If(\E e \in A : e.srecv = t.srecv, "server-received:" \o TermTag(o))
                    \cup If(\E e \in A : e.reqmd = -2 \/ e.reqmd = t.reqmd, "request-metadata:" \o TermTag(o))
-             IN IF parts = {} THEN {"combination:" \o TermTag(o)} ELSE parts)
+             IN IF parts = {} THEN {"combination:" \o (IF HdrTag(o) = "set-but-no-message-sent" THEN HdrTag(o) ELSE TermTag(o))}
+                ELSE parts)
        \cup If(Len(t0.alias) = 0, "copy:" \o t0.alias[1])
        \cup If(t0.leak = 0, "goroutine-left-behind:" \o TermTag(o))
 
